@@ -1402,6 +1402,17 @@ class World:
             return getattr(math, name)
         if name in ("inf", "nan"):
             raise OutOfSubset(f"math.{name}: infinities and NaN are outside the real-number model of floats")
+        if name in ("isfinite", "isnan", "isinf"):
+            def fin(it, a, k, n, name=name):
+                v = a[0] if a else None
+                if isinstance(v, float):
+                    import math
+                    return getattr(math, name)(v)
+                if not is_numlike(v):
+                    it.guard(False, "TypeError", n, "must be real number")
+                # symbolic floats are reals in this model (assumption of the float encoding): finite, not NaN
+                return name == "isfinite"
+            return Builtin("math." + name, fin)
         # transcendental functions: result opaque; domain errors possible
         def f(it, a, k, n, name=name):
             for v in a:
